@@ -55,7 +55,7 @@ Inductive obs :=
 | OParse                     (* rejected by the deserialiser (load only) *)
 | OOther (code : Z).         (* any other error, or a panic *)
 
-Record case := mkcase { c_raw : raw; c_val : obs; c_save : obs; c_load : obs }.
+Record case := mkcase { c_raw : raw; c_val : obs; c_save : obs; c_load : obs; c_load2 : obs; c_load1 : obs }.
 
 (** ---------- the model's outcomes ---------- *)
 Definition m_val (r : raw) : obs :=
@@ -75,6 +75,22 @@ Definition m_load (r : raw) : obs :=
   | Err (LInvalid e) => OInvalid e
   | Panic s => OOther (100 + Z.of_N s)
   end.
+
+(** a format-2 fontinfo.plist has the date, the selection bits, the family class and the six
+    PostScript lists, with the same types; its loader copies them and then calls validate().
+    The format-1 loader takes the six lists from lib.plist and calls validate() again. *)
+Definition is_none {A} (o : option A) : bool := match o with None => true | Some _ => false end.
+Definition v2_applicable (r : raw) : bool :=
+  is_none (r_hgasp r) && is_none (r_hguides r) && is_none (r_hpanose r) && is_none (r_hwidth r) &&
+  is_none (r_hcharset r) && (match r_hu32s r with [] => true | _ => false end) && is_none (r_hupm r) &&
+  is_none (r_hwext r) && is_none (r_hwcredits r) && is_none (r_hwcopyright r) && is_none (r_hwdescr r) &&
+  is_none (r_hwtrade r) && negb (r_hunknown r).
+Definition v1_applicable (r : raw) : bool :=
+  v2_applicable r && is_none (r_hdate r) && is_none (r_hselection r) && is_none (r_hclass r) &&
+  negb (is_none (r_hblue r) && is_none (r_hoblue r) && is_none (r_hfblue r) && is_none (r_hfoblue r) &&
+        is_none (r_hstemh r) && is_none (r_hstemv r)).
+Definition m_load2 (r : raw) : obs := if v2_applicable r then m_load r else ONA.
+Definition m_load1 (r : raw) : obs := if v1_applicable r then m_load r else ONA.
 
 (** ---------- dump ---------- *)
 Definition tm_z (z : Z) : tm := if z <? 0 then L_ [N_ (Z.to_N (- z))] else N_ (Z.to_N z).
@@ -139,14 +155,17 @@ Definition accepted (o : obs) : bool := match o with OOk _ => true | _ => false 
 Definition holds_violating (o : obs) : bool := match o with OOk j => negb (fi_specb j) | _ => false end.
 Definition flag (b : bool) (code : Z) : list Z := if b then [code] else [].
 
-(** codes: 1/2/3 the model's outcome at validate/save/load differs from the implementation's;
-    11/12/13 the implementation's verdict at validate/save/load differs from the specification;
-    14/15 the written file / the loaded font holds an info that violates the specification *)
+(** codes: 1/2/3/4/5 the model's outcome at validate/save/load/load of format 2/load of format 1
+    differs from the implementation's; 11/12/13/16/17 the implementation's verdict there differs
+    from the specification; 14/15/18/19 the written file / the loaded font (format 3, 2, 1) holds
+    an info that violates the specification *)
 Definition check_case (c : case) : list Z :=
   let r := c_raw c in
   flag (negb (obs_eqb (m_val r) (c_val c))) 1 ++
   flag (negb (obs_eqb (m_save r) (c_save c))) 2 ++
   flag (negb (obs_eqb (m_load r) (c_load c))) 3 ++
+  flag (negb (obs_eqb (m_load2 r) (c_load2 c))) 4 ++
+  flag (negb (obs_eqb (m_load1 r) (c_load1 c))) 5 ++
   match build r with
   | Some i => flag (negb (Bool.eqb (accepted (c_val c)) (fi_specb i))) 11 ++
               flag (negb (Bool.eqb (accepted (c_save c)) (fi_specb i))) 12
@@ -155,7 +174,12 @@ Definition check_case (c : case) : list Z :=
   flag (negb (Bool.eqb (accepted (c_load c))
                        (match decode r with Some i => fi_specb i | None => false end))) 13 ++
   flag (holds_violating (c_save c)) 14 ++
-  flag (holds_violating (c_load c)) 15.
+  flag (holds_violating (c_load c)) 15 ++
+  (let spec_says := match decode r with Some i => fi_specb i | None => false end in
+   flag (v2_applicable r && negb (Bool.eqb (accepted (c_load2 c)) spec_says)) 16 ++
+   flag (v1_applicable r && negb (Bool.eqb (accepted (c_load1 c)) spec_says)) 17) ++
+  flag (holds_violating (c_load2 c)) 18 ++
+  flag (holds_violating (c_load1 c)) 19.
 
 Fixpoint check_all (k : Z) (cs : list case) : list (Z * list Z) :=
   match cs with
